@@ -171,7 +171,13 @@ def real_group(rec, modkey, group, quick, parts=("pairs", "scalars", "twist")):
         scalars += [n0, n0 + CG.M61, n0 + 5 * CG.M61]
         from .common import bit_patterns
         wide = bit_patterns(640, rng, 2 if quick else 10) + bit_patterns(512, rng, 1 if quick else 6)
-        scalars += wide if not quick else rng.sample(wide, 10)                 # zero / one runs, low Hamming weight, single holes in wide scalars
+        sparse_wide = [v for v in wide if bin(v).count("1") <= 6]
+        if not quick:
+            scalars += wide
+        elif rep == "opt":
+            scalars += sparse_wide + rng.sample(wide, 4)                         # zero / one runs, low Hamming weight, single holes in wide scalars
+        else:
+            scalars += rng.sample(sparse_wide, 3) + rng.sample(wide, 2)
         es = CG.endo_scalars(r)
         scalars += (es[:6] if quick else es) + list(range(4, 9 if quick else 40))     # eigenvalues of the j = 0 endomorphism, small scalars        # distinct ints with equal hash(): a memo keyed by hash(n) would confuse them
         plist = pts if not quick else [pts[0], pts[5], pts[-1], pts[-2]][: len(pts)]
